@@ -26,6 +26,7 @@ Definition quiet (l : label) : bool :=
 
 Lemma quiet_step : forall s l, quiet l = true ->
   en (step s l) = en s /\ ch (step s l) = ch s /\ out (step s l) = out s /\ lost (step s l) = lost s /\
+  cp (step s l) = cp s /\
   handed (px (step s l)) = handed (px s) /\
   (forall acc dn path, fth (px (step s l)) = FChosen acc dn path -> fth (px s) = FChosen acc dn path).
 Proof.
@@ -44,7 +45,7 @@ Proof.
     - unfold do_fnowait. destruct (px s) as [b q f h]. cbn [fth queue buf handed].
       destruct f; try (split; [reflexivity|intros ? ? ? HH; exact HH]).
       destruct q as [|[x|] q]; (split; [reflexivity|cbn [fth]; intros; discriminate]). }
-  destruct l; try discriminate; cbn [step en ch out lost]; (split; [reflexivity|]); (split; [reflexivity|]); (split; [reflexivity|]); (split; [reflexivity|]); exact K.
+  destruct l; try discriminate; cbn [step en ch out lost cp]; (split; [reflexivity|]); (split; [reflexivity|]); (split; [reflexivity|]); (split; [reflexivity|]); (split; [reflexivity|]); exact K.
 Qed.
 
 (* ================= regime 0: no application ================= *)
@@ -56,16 +57,17 @@ Record I0 (s : st) : Prop := mkI0 {
   i0_path : forall acc dn k, fth (px s) <> FChosen acc dn (Some k);
   i0_text : otext (out s) = concat (handed (px s));
   i0_ok : forallb ev_ok (out s) = true;
-  i0_run : running (en s) = false
+  i0_run : running (en s) = false;
+  i0_cpr : cprq (cp s) = 0
 }.
 
 Lemma I0_step : forall s l, I0 s -> no_lifecycle l = true -> I0 (step s l).
 Proof.
   intros s l I NL. destruct (quiet l) eqn:Q.
-  { destruct (quiet_step s l Q) as [E [C [O [_ [H P]]]]]. destruct I.
-    constructor; rewrite ?E, ?C, ?O, ?H; try assumption.
+  { destruct (quiet_step s l Q) as [E [C [O [_ [K [H P]]]]]]. destruct I.
+    constructor; rewrite ?E, ?C, ?O, ?H, ?K; try assumption.
     intros acc dn k F. apply P in F. eapply i0_path0; eassumption. }
-  destruct I as [Ia Il Iw Iac Ip It Io Ir].
+  pose proof I as Ifull. destruct I as [Ia Il Iw Iac Ip It Io Ir Ic].
   destruct l; try discriminate; cbn [step].
   - (* FChoose *)
     constructor; cbn [en ch out px]; try assumption.
@@ -88,11 +90,15 @@ Proof.
   - (* ExtEnd *)
     rewrite Iac. constructor; assumption.
   - (* Wake *)
-    rewrite Iw. destruct i; cbn; constructor; assumption.
+    rewrite Iw. destruct i; cbn; exact Ifull.
+  - (* CprAnswer *)
+    rewrite Ia. cbn. exact Ifull.
+  - (* CprTimeout *)
+    rewrite Ic. cbn. exact Ifull.
 Qed.
 
-Lemma I0_init : forall c, I0 (init c).
-Proof. intros c. constructor; cbn; try reflexivity. intros; discriminate. Qed.
+Lemma I0_init : forall c r, I0 (init2 c r).
+Proof. intros c r. constructor; cbn; try reflexivity. intros; discriminate. Qed.
 
 Lemma I0_run : forall ls s, I0 s -> forallb no_lifecycle ls = true -> I0 (run s ls).
 Proof.
@@ -139,14 +145,15 @@ Proof.
     eexists; split; [reflexivity|]. intros; reflexivity.
 Qed.
 
-Lemma submit_facts : forall run p c o,
+Lemma submit_facts : forall run hold p c o,
   CI c -> forallb ev_ok o = true -> brk_inv run o c ->
-  let r := submit run p c o in
+  let r := submit run hold p c o in
   otext (snd r) ++ wait_text (fst r) = otext o ++ wait_text c ++ pay_text p /\
   forallb ev_ok (snd r) = true /\ brk_inv run (snd r) (fst r).
 Proof.
-  intros run p c o I Ok B. unfold submit. destruct (fdone c (lastf c)) eqn:F; cbn zeta.
-  - destruct (idle_when_last_done c I F) as [W [N [A All]]].
+  intros run hold p c o I Ok B. unfold submit. destruct (fdone c (lastf c) && negb hold) eqn:FH; cbn zeta.
+  - apply andb_true_iff in FH. destruct FH as [F _].
+    destruct (idle_when_last_done c I F) as [W [N [A All]]].
     assert (B0 : exists b, brk_run o = Some b) by (destruct B as [b [B1 _]]; now exists b).
     pose proof (start_sec_facts run (mksec (lastf c) (nextf c) p)
       (mkch (S (nextf c)) (Some (nextf c)) (donef c) (waitq c) (active c) (started c)) o A Ok B0) as H.
@@ -161,10 +168,44 @@ Qed.
 Lemma brk_some : forall run o c, brk_inv run o c -> exists b, brk_run o = Some b.
 Proof. intros run o c [b [B _]]. now exists b. Qed.
 
-Lemma I1_step : forall s l, I1 s -> CI (ch s) -> app_alive l = true -> I1 (step s l).
+Lemma inval_text : forall run c, otext (inval_render run c) = [].
+Proof. intros run c. unfold inval_render. destruct (run && _); reflexivity. Qed.
+
+Lemma inval_ok : forall run c, forallb ev_ok (inval_render run c) = true.
+Proof. intros run c. unfold inval_render. destruct (run && _); reflexivity. Qed.
+
+Lemma inval_brk : forall run o c, brk_inv run o c -> brk_inv run (o ++ inval_render run c) c.
 Proof.
-  intros s l I C NL. destruct (quiet l) eqn:Q.
-  { destruct (quiet_step s l Q) as [E [Cc [O [_ [H P]]]]]. destruct I.
+  intros run o c [b [B1 B2]]. unfold brk_inv, inval_render. rewrite brk_run_app, B1.
+  destruct run; cbn [andb]; [|cbn; exists b; split; [reflexivity|intros; discriminate]].
+  destruct (active c) eqn:A; cbn.
+  - exists b. split; [reflexivity|]. intros _. rewrite (B2 eq_refl). reflexivity.
+  - exists false. split; reflexivity.
+Qed.
+
+(* the head of waitq leaves wait_for_cpr_responses() *)
+Lemma resume_I1 : forall s k x w,
+  I1 s -> CI (ch s) -> waitq (ch s) = x :: w -> fdone (ch s) (s_prev x) = true ->
+  let r := resume (running (en s)) (ch s) k (out s) in
+  otext (snd r) ++ wait_text (fst (fst r)) ++ concat (loopq (en s)) = concat (handed (px s)) /\
+  forallb ev_ok (snd r) = true /\ brk_inv (running (en s)) (snd r) (fst (fst r)).
+Proof.
+  intros s k x w I C W F. destruct I as [Ia Io Ip It Iok Ib]. unfold resume. rewrite W. cbn zeta.
+  assert (Hn : nth_error (waitq (ch s)) 0 = Some x) by (rewrite W; reflexivity).
+  destruct (wake_head (ch s) 0 x C Hn F) as [_ [A _]].
+  set (c0 := mkch (nextf (ch s)) (lastf (ch s)) (donef (ch s)) w (active (ch s)) (started (ch s))).
+  assert (A0 : active c0 = None) by exact A.
+  destruct (start_sec_facts (running (en s)) x c0 (out s) A0 Iok (brk_some _ _ _ Ib)) as [T [Wq [Ok' B']]].
+  cbn zeta in *. destruct (start_sec (running (en s)) x c0 (out s)) as [c' o']. cbn [fst snd] in *.
+  split; [|split; assumption].
+  rewrite T, <- It. unfold wait_text. rewrite Wq, W. unfold c0. cbn [waitq map concat].
+  rewrite <- !app_assoc. reflexivity.
+Qed.
+
+Lemma I1_step : forall s l, I1 s -> SI s -> app_alive l = true -> I1 (step s l).
+Proof.
+  intros s l I [C Wt] NL. destruct (quiet l) eqn:Q.
+  { destruct (quiet_step s l Q) as [E [Cc [O [_ [_ [H P]]]]]]. destruct I.
     constructor; rewrite ?E, ?Cc, ?O, ?H; try assumption.
     intros acc dn path F. apply P in F. eapply i1_path0; eassumption. }
   pose proof I as Ifull. destruct I as [Ia Io Ip It Iok Ib].
@@ -194,8 +235,8 @@ Proof.
     rewrite Io. destruct (loopq (en s)) as [|t q] eqn:Lq; [exact Ifull|].
     rewrite Ia. cbn [andb].
     destruct (running (en s) || negb (fdone (ch s) (lastf (ch s)))) eqn:G.
-    + destruct (submit_facts (running (en s)) (PWrite t) (ch s) (out s) C Iok Ib) as [T [Ok' B']]. cbn zeta in *.
-      destruct (submit (running (en s)) (PWrite t) (ch s) (out s)) as [c' o']. cbn [fst snd] in *.
+    + destruct (submit_facts (running (en s)) (cpr_pending (cp s)) (PWrite t) (ch s) (out s) C Iok Ib) as [T [Ok' B']]. cbn zeta in *.
+      destruct (submit (running (en s)) (cpr_pending (cp s)) (PWrite t) (ch s) (out s)) as [c' o']. cbn [fst snd] in *.
       constructor; cbn [en ch out px set_loopq app running ctx lclosed loopq lid]; try assumption.
       rewrite app_assoc, T, <- It. cbn [pay_text concat]. rewrite <- !app_assoc. reflexivity.
     + apply orb_false_iff in G. destruct G as [R Fd]. apply negb_false_iff in Fd.
@@ -216,8 +257,8 @@ Proof.
     + unfold brk_inv. rewrite brk_run_app, B1, A. cbn. eexists; split; reflexivity.
   - (* ExtBegin *)
     rewrite Ia. cbn [andb]. destruct (running (en s)) eqn:R; [|exact Ifull].
-    destruct (submit_facts true PExt (ch s) (out s) C Iok Ib) as [T [Ok' B']]. cbn zeta in *.
-    destruct (submit true PExt (ch s) (out s)) as [c' o']. cbn [fst snd] in *.
+    destruct (submit_facts true (cpr_pending (cp s)) PExt (ch s) (out s) C Iok Ib) as [T [Ok' B']]. cbn zeta in *.
+    destruct (submit true (cpr_pending (cp s)) PExt (ch s) (out s)) as [c' o']. cbn [fst snd] in *.
     constructor; cbn [en ch out px]; rewrite ?R; try assumption.
     rewrite app_assoc, T, <- It. cbn [pay_text]. rewrite app_nil_r, <- !app_assoc. reflexivity.
   - (* ExtEnd *)
@@ -230,7 +271,9 @@ Proof.
       destruct (running (en s)); cbn; eexists; (split; [reflexivity|intros; try discriminate; reflexivity]).
   - (* Wake *)
     destruct (nth_error (waitq (ch s)) i) as [x|] eqn:Hn; [|exact Ifull].
-    destruct (fdone (ch s) (s_prev x)) eqn:Fd; [|exact Ifull].
+    destruct (fdone (ch s) (s_prev x) && negb (cprwait (cp s))) eqn:FW; [|exact Ifull].
+    apply andb_true_iff in FW. destruct FW as [Fd _].
+    destruct (cpr_pending (cp s)); [constructor; cbn [en ch out px]; assumption|].
     destruct (wake_head (ch s) i x C Hn Fd) as [E [A [Ox All]]]. subst i.
     set (c0 := mkch (nextf (ch s)) (lastf (ch s)) (donef (ch s)) (remove_nth 0 (waitq (ch s)))
                     (active (ch s)) (started (ch s))).
@@ -242,27 +285,52 @@ Proof.
     rewrite T, <- It. unfold wait_text. rewrite Wq. unfold c0. cbn [waitq].
     destruct (waitq (ch s)) as [|y w]; [discriminate|]. cbn [nth_error] in Hn. injection Hn as ->.
     cbn [remove_nth map concat]. rewrite <- !app_assoc. reflexivity.
+  - (* CprAnswer *)
+    destruct (app (en s) && cpron (cp s) && negb (Nat.eqb (cprq (cp s)) 0) && _) eqn:G0; [|exact Ifull].
+    destruct (cprwait (cp s) && _) eqn:G.
+    + apply andb_true_iff in G. destruct G as [G _]. destruct (Wt G) as [x [w [W F]]].
+      match goal with |- context [resume ?r ?c ?k ?o] =>
+        pose proof (resume_I1 s k x w Ifull C W F) as H; destruct (resume r c k o) as [[c' k'] o'] end.
+      cbn [fst snd] in H. destruct H as [T [Ok' B']].
+      constructor; cbn [en ch out px]; try assumption.
+      * rewrite otext_app, inval_text, app_nil_r. exact T.
+      * rewrite forallb_app, Ok'. apply inval_ok.
+      * apply inval_brk. exact B'.
+    + constructor; cbn [en ch out px]; try assumption.
+      * rewrite otext_app, inval_text, app_nil_r. exact It.
+      * rewrite forallb_app, Iok. apply inval_ok.
+      * apply inval_brk. exact Ib.
+  - (* CprTimeout *)
+    destruct (negb (Nat.eqb (cprq (cp s)) 0) && _); [|exact Ifull].
+    destruct (cprwait (cp s)) eqn:G.
+    + destruct (Wt eq_refl) as [x [w [W F]]].
+      match goal with |- context [resume ?r ?c ?k ?o] =>
+        pose proof (resume_I1 s k x w Ifull C W F) as H; destruct (resume r c k o) as [[c' k'] o'] end.
+      cbn [fst snd] in H. destruct H as [T [Ok' B']].
+      constructor; cbn [en ch out px]; assumption.
+    + constructor; cbn [en ch out px]; assumption.
 Qed.
 
-Definition init_running (c : bool) : st := step (init c) LAppStart.
+Definition init_running2 (c r : bool) : st := step (init2 c r) LAppStart.
+Definition init_running (c : bool) : st := init_running2 c false.
 
-Lemma I1_init : forall c, I1 (init_running c).
+Lemma I1_init : forall c r, I1 (init_running2 c r).
 Proof.
-  intros c. constructor; cbn; try reflexivity.
+  intros c r. constructor; cbn; try reflexivity.
   - intros; discriminate.
   - exists false. split; reflexivity.
 Qed.
 
-Lemma CI_init_running : forall c, CI (ch (init_running c)).
-Proof. intros c. apply CI_step. apply CI_init. Qed.
+Lemma SI_init_running : forall c r, SI (init_running2 c r).
+Proof. intros c r. apply SI_step. apply SI_init. Qed.
 
-Lemma I1_run : forall ls s, I1 s -> CI (ch s) -> forallb app_alive ls = true ->
-  I1 (run s ls) /\ CI (ch (run s ls)).
+Lemma I1_run : forall ls s, I1 s -> SI s -> forallb app_alive ls = true ->
+  I1 (run s ls) /\ SI (run s ls).
 Proof.
   induction ls as [|l ls IH]; intros s I C H; [split; assumption|].
   cbn [forallb] in H. apply andb_true_iff in H. destruct H as [H1 H2].
   change (run s (l :: ls)) with (run (step s l) ls).
-  apply IH; [now apply I1_step|now apply CI_step|assumption].
+  apply IH; [now apply I1_step|now apply SI_step|assumption].
 Qed.
 
 Lemma pipeline_I1 : forall s, I1 s -> pipeline s = ptext (px s).
@@ -272,22 +340,22 @@ Proof.
 Qed.
 
 (* ---- the statements used by Props/C20.v ---- *)
-Lemma in_order_noapp : forall c ls,
+Lemma in_order_noapp : forall c r ls,
   forallb no_lifecycle ls = true ->
-  let s := run (init c) ls in
+  let s := run (init2 c r) ls in
   pipeline s = stream ls /\ forallb ev_ok (out s) = true.
 Proof.
-  intros c ls H. cbn zeta. pose proof (I0_run ls (init c) (I0_init c) H) as I.
+  intros c r ls H. cbn zeta. pose proof (I0_run ls (init2 c r) (I0_init c r) H) as I.
   split; [|apply I]. rewrite (pipeline_I0 _ I), ptext_run. reflexivity.
 Qed.
 
-Lemma in_order_running : forall c ls,
+Lemma in_order_running : forall c r ls,
   forallb app_alive ls = true ->
-  let s := run (init_running c) ls in
+  let s := run (init_running2 c r) ls in
   pipeline s = stream ls /\ forallb ev_ok (out s) = true /\ brk_run (out s) <> None.
 Proof.
-  intros c ls H. cbn zeta.
-  destruct (I1_run ls (init_running c) (I1_init c) (CI_init_running c) H) as [I C].
+  intros c r ls H. cbn zeta.
+  destruct (I1_run ls (init_running2 c r) (I1_init c r) (SI_init_running c r) H) as [I C].
   split; [|split; [apply I|]].
   - rewrite (pipeline_I1 _ I), ptext_run. reflexivity.
   - destruct I. destruct i1_brk0 as [b [B _]]. rewrite B. discriminate.
@@ -301,7 +369,11 @@ Qed.
 (* ---- the flush thread never dies ---- *)
 Lemma no_crash_step : forall s l, fth (px s) <> FCrash -> fth (px (step s l)) <> FCrash.
 Proof.
-  intros s l F. destruct l; cbn [step px]; try exact F.
+  intros s l F. destruct l; cbn [step px]; try exact F;
+    try (solve [repeat (match goal with
+      | |- context [if ?b then _ else _] => destruct b
+      | |- context [match ?x with _ => _ end] => destruct x
+      end); exact F]).
   - unfold do_write. destruct (split_last d) as [[b a]|]; exact F.
   - unfold do_fget. destruct (px s) as [b q f h]. cbn [fth queue buf handed] in *.
     destruct f; try exact F. destruct q as [|[x|] q]; try exact F; [destruct x|]; discriminate.
@@ -312,22 +384,11 @@ Proof.
   - destruct (fth (px s)) as [| | |acc dn [k|]| |] eqn:E; try (rewrite E; exact F).
     + destruct (Nat.eqb k (lid (en s)) && negb (lclosed (en s))); cbn [px set_fth fth]; destruct dn; discriminate.
     + cbn [px set_fth fth]. destruct dn; discriminate.
-  - destruct (negb (app (en s)) && negb (running (en s))); exact F.
-  - destruct (app (en s) && running (en s)); exact F.
-  - destruct (app (en s) && negb (running (en s)) && fdone (ch s) (lastf (ch s))); exact F.
-  - destruct (negb (app (en s)) && negb (lclosed (en s))); exact F.
-  - destruct (lclosed (en s)); [exact F|]. destruct (loopq (en s)); [exact F|].
-    destruct (app (en s) && (running (en s) || negb (fdone (ch s) (lastf (ch s))))); [destruct (submit _ _ _ _)|]; exact F.
-  - destruct (app (en s) && running (en s) && _); exact F.
-  - destruct (app (en s) && running (en s)); [destruct (submit _ _ _ _)|]; exact F.
-  - destruct (active (ch s)); exact F.
-  - destruct (nth_error (waitq (ch s)) i); [|exact F].
-    destruct (fdone (ch s) (s_prev s0)); [destruct (start_sec _ _ _ _)|]; exact F.
 Qed.
 
-Lemma never_dies : forall c ls, fth (px (run (init c) ls)) <> FCrash.
+Lemma never_dies : forall c r ls, fth (px (run (init2 c r) ls)) <> FCrash.
 Proof.
-  intros c ls. assert (H : forall ls s, fth (px s) <> FCrash -> fth (px (run s ls)) <> FCrash).
+  intros c r ls. assert (H : forall ls s, fth (px s) <> FCrash -> fth (px (run s ls)) <> FCrash).
   { induction ls0 as [|l ls0 IH]; intros s F; [exact F|].
     change (run s (l :: ls0)) with (run (step s l) ls0). apply IH. now apply no_crash_step. }
   apply H. cbn. discriminate.
